@@ -106,6 +106,15 @@ macro_rules! with_pattern {
 }
 
 fn one<B: Backend>(cx: &mut Cx, hay: &str, src: &HipStr<'static, B>) {
+    breadcrumb(&format!("strapi bk={} repr={} haystack={:?}", cx.bk, cx.repr, hay));
+    // a panic of the implementation (std would not panic on any of these calls) is a violation on this haystack
+    let r = std::panic::catch_unwind(std::panic::AssertUnwindSafe(|| one_inner::<B>(cx, hay, src)));
+    if let Err(e) = r {
+        let msg = if let Some(s) = e.downcast_ref::<String>() { s.clone() } else if let Some(s) = e.downcast_ref::<&str>() { s.to_string() } else { "<panic>".into() };
+        fail(cx, "(some method of the inherited str API)", hay, "-", format!("panic: {}", msg), "no panic: std does not panic on these calls".into());
+    }
+}
+fn one_inner<B: Backend>(cx: &mut Cx, hay: &str, src: &HipStr<'static, B>) {
     assert_eq!(src.as_str(), hay);
     let s = hay;
     // pattern-free methods
@@ -155,6 +164,11 @@ fn drive<B: Backend>(sum: &mut Summary, bk: &'static str, tier: &str) {
     let mut hays: Vec<String> = vec![String::new()];
     let mut frontier = vec![String::new()];
     for _ in 0..maxlen { let mut next = vec![]; for s in &frontier { for c in syms { next.push(format!("{}{}", s, c)); } } hays.extend(next.iter().cloned()); frontier = next; }
+    // long pieces (more than 23 bytes between separators): adopted pieces of a heap value stay on the heap and share its buffer
+    hays.extend(["xxxxxxxxxxxxxxxxxxxxxxxxxxxxxx yyyyyyyyyyyyyyyyyyyyyyyyyyyyyyyyyy\nzzzzzzzzzzzzzzzzzzzzzzzzzzzzzzzzza\u{e9}\u{e9}\u{e9}\u{e9}\u{e9}\u{e9}\u{e9}\u{e9}\u{e9}\u{e9}\u{e9}\u{e9}\u{e9}b wwwwwwwwwwwwwwwwwwwwwwwwwwwwww".to_string(),
+        "first line, which is long enough\r\nsecond line, also longer than an inline value\nthird".to_string(),
+        // case conversions with context rules and expansions: final sigma, sharp s, dotted I, ligature, titlecase digraphs
+        "\u{391}\u{3a3} \u{3a3}\u{391}\u{3a3}".to_string(), "stra\u{df}e \u{130}i \u{fb01}".to_string(), "\u{1c5}\u{1f2} \u{1f88}\u{1ffc}".to_string()]);
     hays.extend(["  a b  a ".to_string(), "aXbXc".replace('X', "\u{e9}"), "line one\nline two\r\nlast".to_string(), "aaaa".to_string(), " \u{1F980} a\u{1F980}b ".to_string()]);
     for (i, hay) in hays.iter().enumerate() {
         // three representations of the same text; heap values get a long tail so that they stay on the heap
@@ -166,9 +180,34 @@ fn drive<B: Backend>(sum: &mut Summary, bk: &'static str, tier: &str) {
             let h = HipStr::<B>::from(long.clone());
             let mut cx = Cx { sum, bk, repr: "heap" }; one::<B>(&mut cx, Box::leak(long.into_boxed_str()), &h);
         }
+        if i % 5 == 0 || hay.len() > 23 {
+            // a heap value that is itself a view starting inside its buffer (and ending before the buffer's end)
+            let long = format!("{} a b \u{e9} tail that makes the value heap-backed", hay);
+            let padded = format!("0123456789!{}~trailer", long);
+            let whole = HipStr::<B>::from(padded);
+            let view = whole.slice(11..11 + long.len());
+            let mut cx = Cx { sum, bk, repr: "heap-view" }; one::<B>(&mut cx, Box::leak(long.into_boxed_str()), &view);
+        }
         if i % 7 == 0 {
             let mut cx = Cx { sum, bk, repr: "borrowed" }; self_sufficiency::<B>(&mut cx, leaked, &|s: &str| HipStr::borrowed(Box::leak(s.to_string().into_boxed_str())));
             let mut cx = Cx { sum, bk, repr: "owned" }; self_sufficiency::<B>(&mut cx, leaked, &|s: &str| HipStr::from(format!("{} {}", s, "x".repeat(30))));
+        }
+    }
+    // case conversions of every Unicode scalar value, alone and after a letter (one backend: the conversion does not depend on it)
+    if bk == "arc" {
+        let mut buf = String::new();
+        for c in (0..=0x10FFFFu32).filter_map(char::from_u32) {
+            for ctx in [false, true] {
+                if ctx && !(c.is_alphabetic()) { continue; }
+                buf.clear(); if ctx { buf.push('A'); } buf.push(c);
+                let h = HipStr::<B>::from(buf.as_str());
+                sum.evaluations += 2;
+                let (lo, up) = (h.to_lowercase(), h.to_uppercase());
+                if lo.as_str() != buf.to_lowercase() || up.as_str() != buf.to_uppercase() {
+                    sum.violation(format!("{{\"what\":{},\"observed\":{},\"expected\":{}}}", jstr(&format!("strapi to_lowercase/to_uppercase bk={} text={:?} (U+{:04X})", bk, buf, c as u32)),
+                        jstr(&format!("{:?} / {:?}", lo.as_str(), up.as_str())), jstr(&format!("{:?} / {:?}", buf.to_lowercase(), buf.to_uppercase()))));
+                }
+            }
         }
     }
     // from_utf16 / from_utf16_lossy
